@@ -137,6 +137,25 @@ def direct(ck, tf):
     ck.notes.append(f"extreme-value steps checked directly: {n}")
 
 
+from collections.abc import Mapping as _Mapping
+
+
+class ReadOnlyMapping(_Mapping):
+    """a Mapping that is no dict (no clear / update / item assignment): a valid tag or field set"""
+
+    def __init__(self, d):
+        self._d = dict(d)
+
+    def __getitem__(self, k):
+        return self._d[k]
+
+    def __iter__(self):
+        return iter(self._d)
+
+    def __len__(self):
+        return len(self._d)
+
+
 def direct_exceptions(ck, tf, pid="C11"):
     """exceptions of every class raised by user code in the middle of a rewriting operation - StopIteration (an exhausted `next(...)` inside a
     callable), KeyError, a bare Exception subclass - reach the caller and leave the contents as they were, on small databases and on one whose
@@ -162,10 +181,9 @@ def direct_exceptions(ck, tf, pid="C11"):
                                                     for i in range(size)])
                                 if not csv and size == 5:
                                     # a tag / field set may be any Mapping: one stored point carries sets that are no dicts (read-only views)
-                                    import types
                                     db.remove(tf.TagQuery().k == "1")
-                                    db.insert(tf.Point(time=T0 + timedelta(seconds=1), measurement="m", tags=types.MappingProxyType({"k": "1", "pad": "x" * 20}),
-                                                       fields=types.MappingProxyType({"a": 1.0})))
+                                    db.insert(tf.Point(time=T0 + timedelta(seconds=1), measurement="m", tags=ReadOnlyMapping({"k": "1", "pad": "x" * 20}),
+                                                       fields=ReadOnlyMapping({"a": 1.0})))
                                     db.reindex()
                                 before = snapshot(db)
                                 at = size // 2 if where == "middle" else size
